@@ -452,6 +452,7 @@ func (p *Parser) parseReturn() *ast.Return {
 	p.nextToken()
 	value := p.parseExpression(LOWEST)
 	if value == nil {
+		p.setTokenError(returnToken, "invalid syntax in return statement")
 		return nil
 	}
 	return ast.NewReturn(returnToken, value)
@@ -1299,6 +1300,7 @@ func (p *Parser) parseFuncParams() (map[string]ast.Expression, []*ast.Ident) {
 			p.nextToken()
 			expr := p.parseExpression(LOWEST)
 			if expr == nil {
+				p.setTokenError(p.curToken, "invalid syntax in function parameter default")
 				return nil, nil
 			}
 			defaults[ident.String()] = expr
@@ -1505,7 +1507,12 @@ func (p *Parser) parseNodeList(end token.Type) []ast.Node {
 		if err := p.nextToken(); err != nil {
 			return nil
 		}
-		list = append(list, p.parseNode(LOWEST))
+		item := p.parseNode(LOWEST)
+		if item == nil {
+			p.setTokenError(p.curToken, "invalid syntax in list expression")
+			return nil
+		}
+		list = append(list, item)
 	}
 	for p.peekTokenIs(token.NEWLINE) {
 		if err := p.nextToken(); err != nil {
